@@ -366,6 +366,9 @@ fn scripts(quick: bool) -> Vec<Vec<Stmt>> {
     vec![Stmt::Init, a("A"), Stmt::CommitNoAwait, a("B"), Stmt::CommitNoAwait, Stmt::FlushAwait],
     vec![Stmt::Init, a("A"), a("B"), Stmt::CommitNoAwait, a("C"), Stmt::CommitAwait],
     vec![Stmt::Init, a("A"), Stmt::CommitAwait, Stmt::Reload, Stmt::Init, a("B"), Stmt::CommitAwait],
+    // a commit / flush without writes of its own, issued while an earlier commit is in flight
+    vec![Stmt::Init, a("A"), Stmt::CommitNoAwait, Stmt::CommitAwait],
+    vec![Stmt::Init, a("A"), Stmt::CommitNoAwait, Stmt::FlushAwait],
   ];
   if !quick {
     v.push(vec![Stmt::Init, a("A"), Stmt::CommitNoAwait, a("B"), Stmt::CommitNoAwait, a("C"), Stmt::CommitAwait]);
